@@ -211,7 +211,65 @@ func e2eLifeWorker(args []string) error {
 		return nil
 	}
 
+	// the peer's port goes away while its last request is being answered: the answer bounces (ICMP port unreachable, a
+	// read error on the association's socket that is not a time-out); the peer is silent from then on, so after the read
+	// time-out its sessions go and the same address and port can associate afresh
+	portClose := func() error {
+		cfg := agent.Cfg{N4Addr: p.N4Addr, Datapath: "bess", LogLevel: "warn", ReadTimeout: 1, RespTimeout: "40ms", MaxReqRetries: 1}
+
+		w, err := e2e.NewWorld(filepath.Join(p.Dir, "portclose"), p.AgentBin, p.Trace, cfg, int(p.Seed%1000)*1000+970)
+		if err != nil {
+			return err
+		}
+		defer w.Close()
+
+		if err := w.StartAgent(); err != nil {
+			return err
+		}
+
+		w.Assoc("p1")
+		w.Estab("p1", simpleSession(uint64(rng.Int63()), 0x0AE10021, 1))
+		w.Estab("p1", simpleSession(uint64(rng.Int63()), 0x0AE10022, 1))
+
+		pp := w.Peer("p1")
+		addr := pp.LocalAddr()
+		before := w.TeardownCount("p1")
+
+		for i := 0; i < 2; i++ {
+			_ = pp.Send(messageHeartbeat(pp))
+		}
+
+		pp.Close()
+
+		if !w.AwaitTeardown("p1", before, 4*time.Second) {
+			time.Sleep(500 * time.Millisecond)
+		}
+
+		w.RecordLost("p1", "port closed while a request was answered, then silent past the read time-out")
+
+		if _, err := w.PeerAt("p1again", addr); err == nil {
+			w.Assoc("p1again")
+			w.Estab("p1again", simpleSession(uint64(rng.Int63()), 0x0AE10023, 1))
+		}
+
+		if !w.Died {
+			w.StopAgent(5 * time.Second)
+		}
+
+		sum.Stats["port_close"]++
+		sum.Lines += w.Lines
+		sum.Steps += w.Steps
+		sum.Scenarios++
+
+		return nil
+	}
+
 	if p.Forced {
+		if err := portClose(); err != nil {
+			sum.Err = err.Error()
+			return err
+		}
+
 		for _, k := range []string{"hbdead-vs-stop", "release-vs-stop"} {
 			if err := forced(k); err != nil {
 				sum.Err = err.Error()
